@@ -236,6 +236,12 @@ def run(case):
         def d_err(e):
             dead.error = e
         late = bool(case.get('late_dead'))
+        nfail = sum(1 for i in case['items'] if i[2])
+        if case.get('dead_take') and nfail >= 1 and not case.get('outer'):
+            # the consumer of the dead letters wants exactly the errors there are and disposes ITSELF from inside the delivery
+            # of the last one (take(n)): that error is routed, not fatal
+            import rx.operators as rxops
+            errors = errors.pipe(rxops.take(nfail))
         if not late:
             errors.subscribe(on_next=d_next, on_error=d_err, on_completed=d_done)
     # outer: the handler sits BEHIND group_by, nothing handles the error inside the group pipeline: it is unhandled where the
@@ -377,7 +383,7 @@ def case_gen(draw):
     return {'op': op, 'handler': draw(st.sampled_from(HANDLERS)), 'tail': tail, 'driver': driver, 'items': items,
             'outer': driver == 'grouped' and draw(st.integers(0, 3)) == 0,
             'mapval': draw(st.sampled_from(['tagged', 'tagged', 'none', 'zero', 'false', 'empty', 'exc'])),
-            'post': draw(st.booleans()), 'late_dead': draw(st.booleans()),
+            'post': draw(st.booleans()), 'late_dead': draw(st.booleans()), 'dead_take': draw(st.integers(0, 3)) == 0,
             'shared_exc': draw(st.integers(0, 3)) == 0}
 
 
